@@ -650,11 +650,12 @@ keyword(struct token *tok)
 void
 next(void)
 {
-	struct token *t;
+	struct token cur;
 
-	do t = rawnext();
-	while (expand(t) || t->kind == TNEWLINE && !(ppflags & PPNEWLINE));
-	tok = *t;
+	/* work on a copy: expand() may drop the frame (and free or refill the array) the token lives in */
+	do cur = *rawnext();
+	while (expand(&cur) || cur.kind == TNEWLINE && !(ppflags & PPNEWLINE));
+	tok = cur;
 	if (tok.kind == TIDENT)
 		keyword(&tok);
 }
